@@ -20,7 +20,8 @@ pub enum Delay {
     FixedUs(u64),
     Fixed(u64),
     Immediate,
-    /// per-attempt table (attempt 1.. ), every entry >= 1ms
+    /// per-attempt table (attempt 1.. ) in ms; entries may be zero (only the rules that hold
+    /// whatever a zero entry means are checked then)
     Table(Vec<u64>),
 }
 
@@ -41,9 +42,40 @@ pub struct Scn {
     pub knobs: SchedKnobs,
 }
 
+/// Many attempts whose outcomes arrive together (more than any small internal queue holds).
+fn gen_many(rng: &mut Rng) -> Scn {
+    let max = *rng.pick(&[17u32, 20, 24]);
+    let delay = if rng.chance(1, 2) { Delay::Immediate } else { Delay::Fixed(*rng.pick(&[0u64, 1, 2])) };
+    // completion instant common to all attempts (latency shrinks with the attempt's start)
+    let done_at = *rng.pick(&[50u64, 100]);
+    let step = match &delay {
+        Delay::Fixed(d) => *d,
+        _ => 0,
+    };
+    let lucky = if rng.chance(1, 2) { Some(rng.below(max as u64) as usize) } else { None };
+    let attempts = (0..max as usize)
+        .map(|j| Behaviour {
+            lat_ms: done_at.saturating_sub(step * j as u64),
+            out: if Some(j) == lucky { Outcome::Ok } else { Outcome::Err(0) },
+            yields: 0,
+        })
+        .collect();
+    Scn {
+        max,
+        delay,
+        calls: vec![Call { start_ms: 0, attempts }],
+        clone_warmup_ms: 0,
+        knobs: SchedKnobs::gen(rng, false, 60),
+    }
+}
+
 pub fn gen(rng: &mut Rng) -> Scn {
+    if rng.chance(1, 12) {
+        return gen_many(rng);
+    }
     let max = rng.range(1, 4) as u32;
-    let delay = match rng.below(6) {
+    let delay = match rng.below(7) {
+        6 => Delay::Table((0..4).map(|k| if k == 0 { *rng.pick(&[0u64, 5, 10, 10]) } else { *rng.pick(&[0u64, 0, 5, 10]) }).collect()),
         5 => Delay::FixedUs(*rng.pick(&[1u64, 500, 800])),
         0 => Delay::Immediate,
         1 => Delay::Fixed(0),
@@ -86,7 +118,7 @@ pub fn gen(rng: &mut Rng) -> Scn {
 
 pub fn valid(s: &Scn) -> bool {
     s.max >= 1
-        && s.max <= 5
+        && s.max <= 24
         && !s.calls.is_empty()
         && s.calls.len() <= 4
         && s.calls.iter().all(|c| {
@@ -98,7 +130,7 @@ pub fn valid(s: &Scn) -> bool {
             Delay::Fixed(d) => *d <= 100 || *d == u64::MAX,
             Delay::FixedUs(d) => *d >= 1 && *d < 1000,
             Delay::Immediate => true,
-            Delay::Table(t) => t.len() >= 4 && t.len() <= 6 && t.iter().all(|d| *d >= 1 && *d <= 100),
+            Delay::Table(t) => t.len() >= 4 && t.len() <= 6 && t.iter().all(|d| *d <= 100),
         }
         && s.clone_warmup_ms <= 500
         && s.knobs.jumps.len() <= 3
@@ -197,6 +229,9 @@ pub fn run(s: &Scn, ctx: &mut RunCtx) -> RunOutput {
                 }
             } else if s.clone_warmup_ms > 0 && jump > 0 {
                 // a clock jump can end the warm-up of two hedge clones on one instant
+            } else if matches!(&s.delay, Delay::Table(t) if t[0] == 0) {
+                // a delay function whose first answer is zero selects parallel mode (everything
+                // at once); whether its later answers still count is not documented
             } else {
                 let d = delay_for(&s.delay, j);
                 if mine[j].start_us < mine[j - 1].start_us.saturating_add(d) {
@@ -326,6 +361,6 @@ impl Prop for C12 {
         vec!["inner service (SimInner: the j-th call for a request gets the j-th scripted behaviour)"]
     }
     fn assumptions(&self) -> Vec<&'static str> {
-        vec!["per-attempt delay tables with a zero entry are not generated (the documentation does not say whether they mean parallel mode)", "two successes completing at the same instant: either value accepted"]
+        vec!["per-attempt delay tables with a zero entry: the documentation does not say whether a zero means parallel mode, so only the attempt bound, the lower bound on spacing, first-success and all-failed rules are applied to them", "two successes completing at the same instant: either value accepted"]
     }
 }
